@@ -1,6 +1,7 @@
 package main
 
 import (
+	"sync/atomic"
 	"bytes"
 	"context"
 	"fmt"
@@ -134,10 +135,26 @@ func discharge(fr *FuncResult, workdir string, perOblS int, sem chan struct{}, t
 	}
 	// second stage: standalone, three solvers in a race
 	var wg sync.WaitGroup
+	var timedOut int32 // obligations of this function no solver could decide
+	fgate := make(chan struct{}, 8)
 	for _, o := range pending {
 		wg.Add(1)
 		go func(o *Obligation) {
 			defer wg.Done()
+			fgate <- struct{}{}
+			defer func() { <-fgate }()
+			if atomic.LoadInt32(&timedOut) >= 12 && o.Status != "discharged" && !o.Cover && o.Region == "" {
+				// a function that has already left a dozen obligations undecided is not
+				// going to verify: do not spend the full budget on each of the others
+				o.Status = "undecided"
+				o.Detail = "not attempted: 12 obligations of this function were already undecided"
+				return
+			}
+			defer func() {
+				if o.Status == "undecided" {
+					atomic.AddInt32(&timedOut, 1)
+				}
+			}()
 			if o.Region != "" {
 				raceRegion(fr, o, base, perOblS, sem)
 				return
